@@ -14,7 +14,8 @@ from __future__ import annotations
 import os, random, subprocess, sys, time
 import toy_asm as TA
 
-DRIVER = os.environ.get("TOYLEX_DRIVER", "/tmp/toylexwork/ocaml/driver")
+DRIVER = os.environ.get("TOYLEX_DRIVER", "/tmp/toylexwork/ocaml/driver")   # only the stand-alone validation loop (class Model / run) uses this private driver;
+# the registered checks import STREAMS and impl() only and talk to the main driver (requests 90/91)
 
 
 def parse_sx(s):
